@@ -19,6 +19,7 @@ from mc.lattice import Emb, chunked
 ABSENT = "<absent>"
 VALS = (ABSENT, "x", "y", ["x"])
 VALS_NULL = (ABSENT, "x", ["x"], None, 0)  # JSON null / falsy values are values, not absence
+VALS_HASH = (ABSENT, -1, -2, [-1], [-2])  # distinct values whose CPython hashes coincide (hash(-1) == hash(-2))
 KEYLISTS = [("a",), ("b",), ("c",), ("a", "b"), ("b", "a"), ("a", "c"), ("c", "a"), ("b", "c"), ("c", "b"), ("a", "b", "c")]
 BOUNDS = {
     "quick": {"merge_dict_order": "whenever >=2 keys are given, every second event builds its data dict in the opposite key order", "merge": "lists of <=4 events over 16 data shapes (a,b in {absent,x,y,[x]}) and lists of <=3 over 25 shapes (a,b in {absent,x,[x],null,0}), durations 2^i and a zero-duration variant, 10 key lists", "chunk": "key-bearing sequences of <=4 events, values {x,y,[x]}, gaps 0/1 unit within a 4-unit span", "sort": "lists of <=4 over 3 timestamps x 3 durations", "limit": "counts 0..n+1", "filter": "lists of <=3 over 5 value shapes x 6 vals lists"},
@@ -61,9 +62,12 @@ def check_merge(emb, shapes, keys, zero=False):
     snap = [S.ev_tuple(e) for e in evs]
     try:
         out = merge_events_by_keys(evs, list(keys))
+        again = merge_events_by_keys(evs, list(keys))  # same input objects a second time: same answer
     except Exception as e:
         return [("merge-raised", f"{type(e).__name__}: {e}")]
     probs = []
+    if sorted((cj(e.data), S.dus_of(e.duration)) for e in out) != sorted((cj(e.data), S.dus_of(e.duration)) for e in again):
+        probs.append(("merge-second-call-differs", "calling it again with the same objects gave a different result"))
     if [S.ev_tuple(e) for e in evs] != snap:
         probs.append(("merge-input-modified", "input events changed"))
     groups = collections.OrderedDict()
@@ -124,7 +128,8 @@ def check_chunk(emb, seq):
 
 
 def check_sort(emb, kinds):
-    evs = [emb.ev(s, d, {"i": i}) for i, (s, d) in enumerate(kinds)]
+    # ids: a mix of None (events built by a transform) and ints (events read from a store), also among ties
+    evs = [emb.ev(s, d, {"i": i}, id=(None if i % 2 == 0 else 10 - i)) for i, (s, d) in enumerate(kinds)]
     snap = [S.ev_tuple(e) for e in evs]
     probs = []
     for fn, keyf, rev in ((sort_by_timestamp, lambda t: t[1], False), (sort_by_duration, lambda t: t[2], True)):
@@ -237,6 +242,8 @@ def _space(ctx):
     shapes_null = [(a, b) for a in VALS_NULL for b in VALS_NULL]
     seen = set(map(cj, merge))
     merge += [t for k in range(1, 4) for t in itertools.product(shapes_null, repeat=k) if cj(t) not in seen]
+    shapes_hash = [(a, b) for a in VALS_HASH for b in VALS_HASH]
+    merge += [t for k in range(2, 4) for t in itertools.product(shapes_hash, repeat=k)]
     cn = 5 if ctx.thorough else 4
     cel = [(g, d, v) for g in (0, 1) for d in (0, 1) for v in ("x", "y", ["x"])]
     chunk = [t for k in range(0, cn + 1) for t in itertools.product(cel, repeat=k)]
